@@ -1,7 +1,7 @@
 (* C16 — property theorems.  Only statements closed by [exact]; proofs live in Arith/*.v
    (StdProofs.v is about Gen/StdNumber.v, regenerated from std.ncl on every run). *)
 From Coq Require Import ZArith QArith Qround Qreduction Qabs List String Bool Permutation.
-From NV Require Import Arith.Num Arith.Expr Arith.Eq Arith.NumProofs Arith.StdProofs Arith.EqProofs Gen.StdNumber.
+From NV Require Import Arith.Num Arith.Expr Arith.Eq Arith.NumProofs Arith.StdProofs Arith.EqProofs Arith.EqX Arith.EqXProofs Gen.StdNumber.
 Import ListNotations.
 Open Scope Q_scope.
 
@@ -159,13 +159,13 @@ Theorem C16_pow_spec : forall x n, std2 "pow" x n = lift (npow x n).
 Proof. exact pow_spec. Qed.
 
 Theorem C16_eq_refl : forall a, wf a = true -> dv_eqb a a = true.
-Proof. exact EqProofs.eq_refl. Qed.
+Proof. exact dv_eq_refl. Qed.
 
 Theorem C16_eq_sym : forall a b, wf a = true -> wf b = true -> dv_eqb a b = dv_eqb b a.
-Proof. exact EqProofs.eq_sym. Qed.
+Proof. exact dv_eq_sym. Qed.
 
 Theorem C16_eq_trans : forall a b c, wf a = true -> wf b = true -> wf c = true -> dv_eqb a b = true -> dv_eqb b c = true -> dv_eqb a c = true.
-Proof. exact EqProofs.eq_trans. Qed.
+Proof. exact dv_eq_trans. Qed.
 
 Theorem C16_eq_perm : forall f g, Permutation f g -> wf (DRec f) = true -> dv_eqb (DRec f) (DRec g) = true.
 Proof. exact eq_perm. Qed.
@@ -184,4 +184,13 @@ Proof. exact eq_export_enum_refuted. Qed.
 
 Theorem C16_eq_stack_equiv : forall a b, wf a = true -> wf b = true -> eq_machine a b = Some (dv_eqb a b).
 Proof. exact eq_stack_equiv. Qed.
+
+Theorem C16_xeq_norm : forall a b da db, norm [] a = Some da -> norm [] b = Some db -> xwf a = true -> xwf b = true -> xeq_machine a b = Ok (dv_eqb da db).
+Proof. exact xeq_norm. Qed.
+
+Theorem C16_xeq_ignores_pending : forall a b a' b' da db, norm [] a = Some da -> norm [] a' = Some da -> norm [] b = Some db -> norm [] b' = Some db -> xwf a = true -> xwf a' = true -> xwf b = true -> xwf b' = true -> xeq_machine a b = xeq_machine a' b'.
+Proof. exact xeq_ignores_pending. Qed.
+
+Theorem C16_xeq_embed : forall a b, wf a = true -> wf b = true -> xeq_machine (embed a) (embed b) = Ok (dv_eqb a b).
+Proof. exact xeq_embed. Qed.
 
